@@ -242,10 +242,13 @@ def clean_env(extra=None):
 
 
 def run_piped(exe, args, data, frags=None, env=None, timeout=60, stdout_path=None):
-    """Feed `data` to the process through a packet pipe cut as `frags` (list of
-    sizes, cycled; None = one write per 4096 bytes).  Returns (rc, out, err, timed_out)."""
+    """Feed `data` to the process through an ordinary pipe, written in pieces of the
+    sizes `frags` (cycled; None = 4096-byte pieces) with a yield between pieces, so
+    that read() sees real, timing-dependent fragmentation.  Deterministic
+    fragmentation is obtained with the LD_PRELOAD shim (SCHEDC_SHORTREAD*).
+    Returns (rc, out, err, timed_out)."""
     import threading
-    r, w = os.pipe2(os.O_DIRECT)
+    r, w = os.pipe()
     fout = open(stdout_path, "wb") if stdout_path else None
     p = subprocess.Popen([exe] + list(args), stdin=r, stdout=fout if fout else subprocess.PIPE, stderr=subprocess.PIPE,
                          env=clean_env(env))
@@ -262,6 +265,8 @@ def run_piped(exe, args, data, frags=None, env=None, timeout=60, stdout_path=Non
                 i += 1
                 os.write(w, mv[pos:pos + k])
                 pos += k
+                if frags and i % 8 == 0:
+                    time.sleep(0)
         except OSError:
             pass
         finally:
